@@ -278,6 +278,8 @@ pub fn step(s: &J) -> String {
             format!("join {side_s}{rel} ({})", expr(&s["on"]))
         }
         "append" => format!("append ({})", pipe(&s["with"], " | ")),
+        "remove" => format!("remove ({})", pipe(&s["with"], " | ")),
+        "intersect" => format!("intersect ({})", pipe(&s["with"], " | ")),
         "bad" => s["text"].as_str().unwrap_or("").to_string(),
         other => format!("# unknown step {other}"),
     }
